@@ -1,7 +1,7 @@
 (* C20 — linear_operator/utils/sparse.py: bdsmm (batched sparse @ dense); functions/_dsmm.py *)
 From Coq Require Import List ZArith Bool Arith Lia.
 Import ListNotations.
-Require Import C20.Model C20.ProofsBase C20.ProofsSparse C20.ProofsRepeat.
+Require Import C20.Model C20.ProofsBase C20.ProofsSparse C20.ProofsRepeat C20.ProofsShape C20.ProofsPerm.
 
 Lemma unravel_of_ravel sh k ix : k = ravel sh ix -> valid ix sh -> unravel sh k = ix.
 Proof. intros -> Hv. apply unravel_ravel. exact Hv. Qed.
@@ -282,4 +282,271 @@ Proof.
   - intros beta' Hb' Hne. apply zsum_zero. intros c Hc.
     rewrite sdense_at. cbn [sent]. unfold ents2, beta.
     rewrite (sval_flat_miss nc nr ob (sent s) c beta' i b Hvs Hc Hi Hne). ring.
+Qed.
+
+(* the sparse-batched branch after the broadcasting step: whatever `sparse_repeat` returned (s'), provided it is
+   well formed with the output batch shape ob *)
+Lemma bdsmm_sparse_batched_core stride s d nc nr sb0 sbr p db o0 orest s' :
+  let sb := sb0 :: sbr in let ob := o0 :: orest in
+  sshape s = nc :: nr :: sb -> tshape d = p :: nc :: db -> broadcast_shapes sb db = Some ob ->
+  sparse_repeat stride s (rev (map2 Nat.div ([nc; nr] ++ ob) ((nc :: nr :: sb) ++ repeat 1 (length (p :: nr :: ob) - length (nc :: nr :: sb))))) = s' ->
+  sshape s' = nc :: nr :: ob -> swf s' = true -> Forall (fun x => 1 <= x) (nc :: nr :: ob) ->
+  exists out, bdsmm stride s d = Ok out /\ tshape out = p :: nr :: ob /\
+    forall j i b, j < p -> i < nr -> valid b ob ->
+      tat out (j :: i :: b) = zsum nc (fun c => (tat (sdense s') (c :: i :: b) * tat d (j :: c :: bcast_ix db b))%Z).
+Proof.
+  intros sb ob Hs Hd Hb Hrep Hs' Hw Hpos. unfold bdsmm, ndim. rewrite Hs, Hd.
+  replace (2 <? length (nc :: nr :: sb)) with true by reflexivity.
+  unfold matmul_broadcast_shape. rewrite Nat.eqb_refl. fold sb. rewrite Hb. cbn [bind].
+  replace (length (p :: nc :: db) <? 2) with false by reflexivity.
+  change (skipn 2 (p :: nr :: ob)) with ob. change (firstn 2 (nc :: nr :: sb)) with [nc; nr].
+  rewrite Hrep. clear Hrep.
+  rewrite Hs'. unfold dim0, dim1. rewrite Hd. cbn [nth].
+  set (B := numel ob).
+  assert (HB : 0 < B).
+  { unfold B. inversion Hpos as [|? ? _ H1]. inversion H1 as [|? ? _ H2]. clear - H2.
+    induction H2; simpl; nia. }
+  assert (Hnc : 1 <= nc) by (inversion Hpos; auto).
+  assert (Hnr : 1 <= nr) by (inversion Hpos as [|? ? _ H1]; inversion H1; auto).
+  assert (Hents : map (fun e : list nat * Z =>
+              ([nth 0 (fst e) 0 + fold_right Nat.add 0 (map (fun i => nth i (rev (skipn 2 (fst e))) 0 * numel (skipn (S i) (rev ob))) (seq 0 (length (rev ob)))) * nc;
+                nth 1 (fst e) 0 + fold_right Nat.add 0 (map (fun i => nth i (rev (skipn 2 (fst e))) 0 * numel (skipn (S i) (rev ob))) (seq 0 (length (rev ob)))) * nr], snd e)) (sent s')
+           = map (fun e => (flat_ix nc nr ob (fst e), snd e)) (sent s')).
+  { apply map_ext_in. intros e Hin. unfold flat_ix. pose proof (proj1 (swf_spec s') Hw e Hin) as Hv. rewrite Hs' in Hv.
+    rewrite batch_assign_ravel; [reflexivity|].
+    destruct (fst e) as [|c [|r bix]]; simpl in Hv; try tauto. cbn [skipn]. apply valid_length. tauto. }
+  rewrite Hents. clear Hents.
+  assert (Hoc : numel (tshape (expand d (p :: nc :: ob))) / (B * nc) = p).
+  { cbn [tshape expand numel]. fold B. replace (p * (nc * B)) with (p * (B * nc)) by ring. apply Nat.div_mul. nia. }
+  rewrite Hoc.
+  set (ents2 := map (fun e : list nat * Z => (flat_ix nc nr ob (fst e), snd e)) (sent s')).
+  assert (Hvs : forall e, In e (sent s') -> valid (fst e) (nc :: nr :: ob)).
+  { intros e Hin. rewrite <- Hs'. apply (proj1 (swf_spec s') Hw e Hin). }
+  assert (Hwf2 : swf (mkS [B * nc; B * nr] ents2) = true).
+  { apply swf_spec. cbn [sent sshape]. intros e Hin. unfold ents2 in Hin. apply in_map_iff in Hin.
+    destruct Hin as [e0 [<- Hin]]. cbn [fst]. specialize (Hvs e0 Hin).
+    destruct (fst e0) as [|c [|r bix]]; simpl in Hvs; try tauto. destruct Hvs as [Hc [Hr Hbix]].
+    unfold flat_ix. cbn [nth skipn]. pose proof (ravel_lt _ _ Hbix) as Hlt. fold B in Hlt. simpl. repeat split; apply block_lt; auto. }
+  unfold mk_sparse. rewrite Hwf2. cbn [bind].
+  set (d2 := reshape (expand d (p :: nc :: ob)) [p; B * nc]).
+  destruct (dsmm2_correct (mkS [B * nc; B * nr] ents2) d2 (B * nc) (B * nr) p eq_refl eq_refl Hwf2) as [res [Eres [Hsres Hvres]]].
+  rewrite Eres. cbn [bind].
+  eexists. split; [reflexivity|]. split; [reflexivity|].
+  intros j i b Hj Hi Hvb.
+  pose proof (ravel_lt _ _ Hvb) as Hbeta. fold B in Hbeta. set (beta := ravel ob b) in *.
+  unfold reshape at 1. cbn [tat tshape]. rewrite Hsres.
+  rewrite (unravel_of_ravel [p; B * nr] _ [j; i + beta * nr]).
+  2:{ rewrite !ravel_cons, ravel_nil. fold beta. ring. }
+  2:{ simpl. repeat split; [lia|apply block_lt; auto]. }
+  rewrite Hvres. rewrite zsum_prod.
+  rewrite (zsum_single B _ beta Hbeta).
+  - apply zsum_ext. intros c Hc. f_equal.
+    + rewrite sdense_at. cbn [sent]. unfold ents2.
+      replace (c + nc * beta) with (c + beta * nc) by lia. unfold beta.
+      rewrite (sval_flat nc nr ob (sent s') c i b Hvs Hc Hi Hvb). rewrite sdense_at. reflexivity.
+    + unfold d2, reshape. cbn [tat tshape].
+      rewrite (unravel_of_ravel (p :: nc :: ob) _ (j :: (c + 0) :: b)).
+      * unfold expand. cbn [tat]. rewrite Hd. cbn [bcast_ix].
+        replace (if p =? 1 then 0 else j) with j by (destruct (Nat.eqb_spec p 1); lia).
+        replace (if nc =? 1 then 0 else c + 0) with c by (destruct (Nat.eqb_spec nc 1); lia). reflexivity.
+      * rewrite !ravel_cons, ravel_nil. fold beta. ring.
+      * simpl. repeat split; try lia. exact Hvb.
+  - intros beta' Hb' Hne. apply zsum_zero. intros c Hc.
+    rewrite sdense_at. cbn [sent]. unfold ents2, beta.
+    rewrite (sval_flat_miss nc nr ob (sent s') c beta' i b Hvs Hc Hi Hne). ring.
+Qed.
+
+(* ---- the broadcasting step: repeat sizes computed by bdsmm, and what sparse_repeat makes of them ---- *)
+Lemma nth_map2 {A B C} (f : A -> B -> C) la lb p da db dc :
+  p < length la -> p < length lb -> nth p (map2 f la lb) dc = f (nth p la da) (nth p lb db).
+Proof.
+  revert lb p; induction la as [|a la IH]; intros [|b lb] [|p]; simpl; try lia; auto. intros; apply IH; lia.
+Qed.
+Lemma map2_length {A B C} (f : A -> B -> C) la lb : length (map2 f la lb) = Nat.min (length la) (length lb).
+Proof. revert lb; induction la; intros [|b lb]; simpl; auto. Qed.
+
+(* `expandable sb ob` (the sparse batch broadcasts to ob): padded with ones, every size divides the output size *)
+Lemma div_mul_expandable sb : forall ob k, expandable sb ob = true -> length ob = length sb + k ->
+  Forall (fun x => 1 <= x) sb ->
+  forall p, p < length ob ->
+    nth p ob 0 / nth p (sb ++ repeat 1 k) 0 * nth p (sb ++ repeat 1 k) 0 = nth p ob 0 /\
+    (1 <= nth p ob 0 -> 1 <= nth p ob 0 / nth p (sb ++ repeat 1 k) 0) /\
+    (1 < nth p ob 0 / nth p (sb ++ repeat 1 k) 0 -> nth p (sb ++ repeat 1 k) 0 = 1).
+Proof.
+  induction sb as [|x sb IH]; intros ob k He Hl Hpos p Hp.
+  - cbn [app]. simpl in Hl. subst k.
+    assert (E : nth p (repeat 1 (length ob)) 0 = 1).
+    { clear - Hp. revert p Hp. induction (length ob); intros [|p] Hp; simpl; try lia; auto. apply IHn; lia. }
+    rewrite E, Nat.div_1_r. lia.
+  - destruct ob as [|y ob]; [discriminate|]. cbn [expandable] in He. apply andb_true_iff in He. destruct He as [Hxy He].
+    inversion Hpos as [|? ? Hx Hpos']. subst. destruct p as [|p]; cbn [app nth].
+    + apply orb_true_iff in Hxy. destruct Hxy as [E|E]; apply Nat.eqb_eq in E; subst.
+      * rewrite Nat.div_same by lia. lia.
+      * rewrite Nat.div_1_r. lia.
+    + apply (IH ob k); auto; simpl in *; lia.
+Qed.
+
+Lemma firstn_modfrom_bcast sb : forall ob b tail, expandable sb ob = true -> valid b ob -> Forall (fun x => 1 <= x) sb ->
+  firstn (length sb) (modfrom 0 b (sb ++ tail)) = bcast_ix sb b.
+Proof.
+  induction sb as [|x sb IH]; intros ob b tail He Hv Hpos; [reflexivity|].
+  destruct ob as [|y ob]; [discriminate|]. destruct b as [|i b]; [simpl in Hv; tauto|].
+  cbn [expandable] in He. apply andb_true_iff in He. destruct He as [Hxy He]. destruct Hv as [Hi Hv].
+  inversion Hpos as [|? ? Hx Hpos']. subst.
+  cbn [app modfrom length firstn bcast_ix pred]. f_equal.
+  - apply orb_true_iff in Hxy. destruct Hxy as [E|E]; apply Nat.eqb_eq in E; subst.
+    + rewrite Nat.mod_small by lia. destruct (Nat.eqb_spec y 1); [lia|reflexivity].
+    + reflexivity.
+  - apply (IH ob); auto.
+Qed.
+
+Lemma Forall_nth_ge1 l p : Forall (fun x => 1 <= x) l -> p < length l -> 1 <= nth p l 0.
+Proof. intros H. revert p. induction H; intros [|p] Hp; simpl in *; try lia; auto. apply IHForall; lia. Qed.
+
+(* ---- bdsmm, sparse-batched branch, FULL broadcasting (repaired stride) ---- *)
+Lemma bdsmm_sparse_batched_general s d nc nr sb0 sbr p db ob :
+  let sb := sb0 :: sbr in
+  sshape s = nc :: nr :: sb -> swf s = true -> tshape d = p :: nc :: db ->
+  broadcast_shapes sb db = Some ob ->
+  Forall (fun x => 1 <= x) (nc :: nr :: ob) -> Forall (fun x => 1 <= x) sb ->
+  exists out, bdsmm stride_dense s d = Ok out /\ tshape out = p :: nr :: ob /\
+    forall j i b, j < p -> i < nr -> valid b ob ->
+      tat out (j :: i :: b) =
+      zsum nc (fun c => (tat (sdense s) (c :: i :: bcast_ix sb b) * tat d (j :: c :: bcast_ix db b))%Z).
+Proof.
+  intros sb Hs Hw Hd Hb Hpos Hsbpos.
+  pose proof (broadcast_shapes_length _ _ _ Hb) as Hlob.
+  destruct (broadcast_shapes_expandable _ _ _ Hb) as [Hexp _].
+  assert (Hls : length sb <= length ob) by lia.
+  destruct ob as [|o0 orest]; [simpl in Hls; lia|]. set (ob := o0 :: orest) in *.
+  set (k := length ob - length sb).
+  assert (Hk : length ob = length sb + k) by (unfold k; lia).
+  set (U := nc :: nr :: (sb ++ repeat 1 k)). set (E := nc :: nr :: ob).
+  assert (HU : (nc :: nr :: sb) ++ repeat 1 (length (p :: nr :: ob) - length (nc :: nr :: sb)) = U) by reflexivity.
+  set (L := map2 Nat.div E U).
+  assert (Hnc : 1 <= nc) by (inversion Hpos; auto).
+  assert (Hnr : 1 <= nr) by (inversion Hpos as [|? ? _ H1]; inversion H1; auto).
+  assert (Hobpos : Forall (fun x => 1 <= x) ob) by (inversion Hpos as [|? ? _ H1]; inversion H1; auto).
+  assert (HlenE : length E = 2 + length ob) by reflexivity.
+  assert (HlenU : length U = 2 + length ob).
+  { unfold U. cbn [length]. rewrite app_length, repeat_length. lia. }
+  assert (HlenL : length L = 2 + length ob) by (unfold L; rewrite map2_length; lia).
+  assert (HL : forall q, q < 2 + length ob ->
+     nth q L 0 * nth q U 0 = nth q E 0 /\ 1 <= nth q L 0 /\ (1 < nth q L 0 -> nth q U 0 = 1)).
+  { intros q Hq. unfold L. rewrite (nth_map2 Nat.div E U q 0 0 0) by lia.
+    destruct q as [|[|q]]; cbn [nth E U].
+    - rewrite Nat.div_same by lia. lia.
+    - rewrite Nat.div_same by lia. lia.
+    - destruct (div_mul_expandable sb ob k Hexp Hk Hsbpos q ltac:(lia)) as [H1 [H2 H3]].
+      split; [exact H1|]. split; [apply H2; apply Forall_nth_ge1; auto; lia|exact H3]. }
+  set (reps := rev L).
+  assert (Hlreps : length reps = 2 + length ob) by (unfold reps; rewrite rev_length; exact HlenL).
+  assert (Hnthreps : forall j, j < 2 + length ob -> nth j reps 0 = nth (2 + length ob - 1 - j) L 0).
+  { intros j Hj. unfold reps. rewrite rev_nth by lia. rewrite HlenL. f_equal; lia. }
+  pose proof (sparse_repeat_correct s reps Hw) as Hrep. cbv zeta in Hrep.
+  rewrite Hs, Hlreps in Hrep. change (length (nc :: nr :: sb)) with (2 + length sb) in Hrep.
+  replace (2 + length ob - (2 + length sb)) with k in Hrep by lia.
+  change ((nc :: nr :: sb) ++ repeat 1 k) with U in Hrep.
+  destruct Hrep as [Hrlen [Hrwf [Hrsh Hrval]]]; [lia| |].
+  { intros j Hj. rewrite Hnthreps by lia. apply HL. lia. }
+  set (r := sparse_repeat stride_dense s reps) in *.
+  assert (Hrshape : sshape r = E).
+  { apply (nth_ext _ _ 0 0); [rewrite Hrlen, HlenE; reflexivity|]. intros q Hq. rewrite Hrlen in Hq.
+    rewrite Hrsh by lia. rewrite Hnthreps by lia. replace (2 + length ob - 1 - (2 + length ob - 1 - q)) with q by lia.
+    apply HL. lia. }
+  destruct (bdsmm_sparse_batched_core stride_dense s d nc nr sb0 sbr p db o0 orest r) as [out [Eo [Hso Hvo]]]; auto.
+  exists out. split; [exact Eo|]. split; [exact Hso|].
+  intros j i b Hj Hi Hvb. rewrite Hvo by auto. apply zsum_ext. intros c Hc. f_equal.
+  rewrite Hrval by (rewrite Hrshape; simpl; auto).
+  f_equal. change (2 + length sb) with (S (S (length sb))). cbn [modfrom pred firstn U].
+  rewrite !Nat.mod_small by lia. f_equal. f_equal.
+  apply (firstn_modfrom_bcast sb ob b (repeat 1 k)); auto.
+Qed.
+
+(* the pinned stride gives the same bdsmm: the batch dimensions bdsmm repeats all have size 1 *)
+Lemma bdsmm_sparse_batched_pinned_eq s d nc nr sb0 sbr p db ob :
+  let sb := sb0 :: sbr in
+  sshape s = nc :: nr :: sb -> swf s = true -> tshape d = p :: nc :: db ->
+  broadcast_shapes sb db = Some ob ->
+  Forall (fun x => 1 <= x) (nc :: nr :: ob) -> Forall (fun x => 1 <= x) sb ->
+  bdsmm stride_pinned s d = bdsmm stride_dense s d.
+Proof.
+  intros sb Hs Hw Hd Hb Hpos Hsbpos.
+  pose proof (broadcast_shapes_length _ _ _ Hb) as Hlob.
+  destruct (broadcast_shapes_expandable _ _ _ Hb) as [Hexp _].
+  assert (Hls : length sb <= length ob) by lia.
+  set (k := length ob - length sb).
+  assert (Hk : length ob = length sb + k) by (unfold k; lia).
+  set (U := nc :: nr :: (sb ++ repeat 1 k)). set (E := nc :: nr :: ob).
+  set (L := map2 Nat.div E U).
+  assert (Hnc : 1 <= nc) by (inversion Hpos; auto).
+  assert (Hnr : 1 <= nr) by (inversion Hpos as [|? ? _ H1]; inversion H1; auto).
+  assert (Hobpos : Forall (fun x => 1 <= x) ob) by (inversion Hpos as [|? ? _ H1]; inversion H1; auto).
+  assert (HlenU : length U = 2 + length ob).
+  { unfold U. cbn [length]. rewrite app_length, repeat_length. lia. }
+  assert (HlenL : length L = 2 + length ob) by (unfold L; rewrite map2_length; unfold E; cbn [length]; lia).
+  assert (HL : forall q, q < 2 + length ob -> 1 <= nth q L 0 /\ (1 < nth q L 0 -> nth q U 0 = 1)).
+  { intros q Hq. unfold L. rewrite (nth_map2 Nat.div E U q 0 0 0) by (unfold E; cbn [length]; lia).
+    destruct q as [|[|q]]; cbn [nth E U].
+    - rewrite Nat.div_same by lia. lia.
+    - rewrite Nat.div_same by lia. lia.
+    - destruct (div_mul_expandable sb ob k Hexp Hk Hsbpos q ltac:(lia)) as [H1 [H2 H3]].
+      split; [apply H2; apply Forall_nth_ge1; auto; lia|exact H3]. }
+  assert (Hnthreps : forall j, j < 2 + length ob -> nth j (rev L) 0 = nth (2 + length ob - 1 - j) L 0).
+  { intros j Hj. rewrite rev_nth by lia. rewrite HlenL. f_equal; lia. }
+  assert (Epin : sparse_repeat stride_pinned s (rev L) = sparse_repeat stride_dense s (rev L)).
+  { apply sparse_repeat_pinned_ok_on_size1; auto.
+    - rewrite rev_length, HlenL, Hs. cbn [length]. lia.
+    - intros j Hj. rewrite rev_length, HlenL in Hj. rewrite Hnthreps by lia. apply HL. lia.
+    - cbv zeta. rewrite rev_length, HlenL, Hs. intros j Hj Hgt. rewrite Hnthreps in Hgt by lia.
+      change (length (nc :: nr :: sb)) with (2 + length sb). replace (2 + length ob - (2 + length sb)) with k by lia.
+      change ((nc :: nr :: sb) ++ repeat 1 k) with U. apply HL; [lia|exact Hgt]. }
+  unfold bdsmm, ndim. rewrite Hs, Hd. replace (2 <? length (nc :: nr :: sb)) with true by reflexivity.
+  unfold matmul_broadcast_shape. rewrite Nat.eqb_refl. fold sb. rewrite Hb. cbn [bind].
+  change (skipn 2 (p :: nr :: ob)) with ob. change (firstn 2 (nc :: nr :: sb)) with [nc; nr].
+  change ([nc; nr] ++ ob) with E.
+  replace ((nc :: nr :: sb) ++ repeat 1 (length (p :: nr :: ob) - length (nc :: nr :: sb))) with U.
+  - fold L. rewrite Epin. reflexivity.
+  - unfold U. cbn [app length]. replace (S (S (length ob)) - S (S (length sb))) with k by (unfold k; lia). reflexivity.
+Qed.
+
+(* ---- DSMM.backward for a batched sparse operand: bdsmm(sparse.mT, grad) = S_b^T G_b ---- *)
+Lemma smT_wf_batched s nc nr sb : sshape s = nc :: nr :: sb -> swf s = true -> swf (smT s) = true.
+Proof.
+  intros Hs Hw. apply swf_spec. intros e Hin. unfold smT in *. cbn [sent sshape] in *. apply in_map_iff in Hin.
+  destruct Hin as [e0 [<- Hin]]. cbn [fst]. pose proof (proj1 (swf_spec s) Hw e0 Hin) as Hv. rewrite Hs in *.
+  destruct (fst e0) as [|x [|y l]]; simpl in *; tauto.
+Qed.
+
+Lemma dsmm_backward_sparse_batched_correct s g nc nr sb0 sbr p gb ob :
+  let sb := sb0 :: sbr in
+  sshape s = nc :: nr :: sb -> swf s = true -> tshape g = p :: nr :: gb ->
+  broadcast_shapes sb gb = Some ob ->
+  Forall (fun x => 1 <= x) (nc :: nr :: ob) -> Forall (fun x => 1 <= x) sb ->
+  exists out, dsmm_backward stride_dense s g = Ok out /\ tshape out = p :: nc :: ob /\
+    forall j c b, j < p -> c < nc -> valid b ob ->
+      tat out (j :: c :: b) =
+      zsum nr (fun i => (tat (sdense s) (c :: i :: bcast_ix sb b) * tat g (j :: i :: bcast_ix gb b))%Z).
+Proof.
+  intros sb Hs Hw Hg Hb Hpos Hsb. unfold dsmm_backward.
+  destruct (bdsmm_sparse_batched_general (smT s) g nr nc sb0 sbr p gb ob) as [out [E [Hsh Hv]]]; auto.
+  - unfold smT. cbn [sshape]. rewrite Hs. reflexivity.
+  - apply (smT_wf_batched s nc nr sb); auto.
+  - inversion Hpos as [|? ? H1 H2]. inversion H2 as [|? ? H3 H4]. repeat constructor; auto.
+  - exists out. split; [exact E|]. split; [exact Hsh|]. intros j c b Hj Hc Hvb. rewrite Hv by auto.
+    apply zsum_ext. intros i _. f_equal. apply smT_correct.
+Qed.
+
+Lemma dsmm_backward_dense_batched_correct stride s g n m p b0 rb :
+  sshape s = [n; m] -> tshape g = p :: m :: b0 :: rb -> swf s = true ->
+  exists out, dsmm_backward stride s g = Ok out /\ tshape out = p :: n :: b0 :: rb /\
+    forall j c b, j < p -> c < n -> valid b (b0 :: rb) ->
+      tat out (j :: c :: b) = zsum m (fun i => (tat (sdense s) [c; i] * tat g (j :: i :: b))%Z).
+Proof.
+  intros Hs Hg Hw. unfold dsmm_backward.
+  destruct (bdsmm_dense_batched_correct stride (smT s) g m n p b0 rb) as [out [E [Hsh Hv]]]; auto.
+  - unfold smT. cbn [sshape]. rewrite Hs. reflexivity.
+  - apply (smT_wf s n m); auto.
+  - exists out. split; [exact E|]. split; [exact Hsh|]. intros j c b Hj Hc Hvb. rewrite Hv by auto.
+    apply zsum_ext. intros i _. f_equal. apply (smT_correct s i c []).
 Qed.
